@@ -192,10 +192,12 @@ def ops():
     lazy("similarity_clustermap", lambda: (P.similarity_clustermap, (_cm_df(),), {}), seed=29)
     lazy("similarity_clustermap-norm", lambda: (P.similarity_clustermap, (_cm_df(),), {"norm": __import__("matplotlib").colors.Normalize(0, 5), "alpha_column": None}), seed=29)
     lazy("similarity_clustermap-cbar_kws", lambda: (P.similarity_clustermap, (_cm_df(),), {"cbar_kws": {"label": "d", "orientation": "horizontal"}, "meta_columns": ["meta"], "bounds": np.arange(0, 5, 1)}), seed=29)
+    lazy("similarity_clustermap-short-mapper-list", lambda: (P.similarity_clustermap, (_cm_df(),), {"meta_columns": ["meta"], "meta_to_colors": [P.labels_to_colors_tableau]}), seed=29)
+    lazy("density_scatter-colormap-object", lambda: (P.density_scatter, (np.linspace(0, 1, 40), (np.linspace(0, 1, 40) * 7) % 1), {"ax": fig_ax(), "bins": 5, "cmap": __import__("matplotlib").pyplot.cm.magma}))
     lazy("seqlogos", lambda: (P.seqlogos, (["CAS", "CAT", "CWT"],), {"ax": fig_ax()}))
     lazy("seqlogos-styled", lambda: (P.seqlogos, (["CAS", "CAT", "CWT"],), {"ax": fig_ax(), "color_scheme": "hydrophobicity", "stack_order": "small_on_top"}))
     lazy("seqlogos_vj-styled", lambda: (P.seqlogos_vj, (pd.DataFrame({"c": ["CAS", "CAT"], "v": ["TRBV1", "TRBV2"], "j": ["TRBJ1", "TRBJ1"]}), "c", "v", "j"), {"color_scheme": "charge"}))
     lazy("density_scatter-discrete", lambda: (P.density_scatter, ([0, 1, 0, 1, 1], [0, 1, 0, 0, 1]), {"ax": fig_ax(), "discrete": True}))
-    lazy("density_scatter-binned", lambda: (P.density_scatter, (np.linspace(0, 1, 30), np.linspace(0, 1, 30) ** 2), {"ax": fig_ax(), "bins": 4}))
+    lazy("density_scatter-binned", lambda: (P.density_scatter, (np.linspace(0, 1, 40), (np.linspace(0, 1, 40) * 3) % 1), {"ax": fig_ax(), "bins": 5}))
     lazy("label_axes", lambda: (P.label_axes, ([fig_ax(), fig_ax()],), {"labels": "xy"}))
     return O
